@@ -700,6 +700,11 @@ func semIsoSupported(fn *ssa.Function) bool {
 // instruction matched, the zipper's own maps must pass the model's isoCheck (hypothesis of
 // C04_sem_iso_same_behaviour).
 func semIsoPair(c *Ctx, what string, oldFn, newFn *ssa.Function, src string) error {
+	// the bookkeeping and control-flow oracle on the zipper's final maps (every pair, preserved or not)
+	checkZipper(oldFn, newFn, func(cls, d string, extra map[string]interface{}) {
+		extra["source"] = src
+		c.Violate(cls[:3], cls, fmt.Sprintf("%s %s: %s", what, oldFn.Name(), d), extra)
+	})
 	z, err := diff.NewZipper(oldFn, newFn, ir.KeepAllLiteralsPolicy)
 	if err != nil {
 		c.Skip("iso_zipper_refused")
